@@ -515,6 +515,13 @@ func GenWMPT(r *rand.Rand, mode string) WHist {
 	clean := true
 	saved := false
 	commitsSinceSave := 0
+	gcs := 0 // effective DeleteNodes passes since the last effective commit (deletion is staged over two passes)
+	gc := func() {
+		h.Ops = append(h.Ops, WOp{Op: "gc"})
+		if clean {
+			gcs++
+		}
+	}
 	uniq := 0
 	lastVals := map[int][]string{}
 	value := func(k int) string {
@@ -549,13 +556,16 @@ func GenWMPT(r *rand.Rand, mode string) WHist {
 			clean = false
 		case x < 66:
 			h.Ops = append(h.Ops, WOp{Op: "commit", Level: []int{0, 1, 2, 3, 64, 1}[r.Intn(6)]})
+			if !clean {
+				gcs = 0
+			}
 			clean = true
 			commitsSinceSave++
 			if r.Intn(3) > 0 {
-				h.Ops = append(h.Ops, WOp{Op: "gc"})
+				gc()
 			}
 		case x < 72:
-			h.Ops = append(h.Ops, WOp{Op: "gc"})
+			gc()
 		case x < 78:
 			if clean {
 				h.Ops = append(h.Ops, WOp{Op: "reload"})
@@ -576,7 +586,8 @@ func GenWMPT(r *rand.Rand, mode string) WHist {
 				commitsSinceSave = 0
 			}
 		default:
-			if saved && clean && commitsSinceSave == 1 {
+			// the second pass after the commit purges what the commit superseded, i.e. the checkpoint
+			if saved && clean && commitsSinceSave == 1 && gcs <= 1 {
 				if r.Intn(2) == 0 {
 					h.Ops = append(h.Ops, WOp{Op: "rollback"})
 				} else {
